@@ -144,7 +144,37 @@ def main(run):
             run.sample({"k": k, "p": pe, "snapshot_n": n0, "runs": runs,
                         "retention_observed_vs_law": {str(t + 1): [incl[n0][t] / runs, law(k, pe, n0, t)] for t in picks(k, n0)[:8]},
                         "acceptance": [accepts, offers], "slot_counts": dict(slots)})
-    run.notes["max_min_detectable_deviation"] = mdd
+    # ---- thin slices: EVERY size 1..16 with a probability drawn from VERIF_SEED, coarse retention / acceptance tests
+    ks = [k for k in range(1, 17) if k % nsh == sh]
+    runs_s = 2500 if not thorough else 30000
+    srnd = random.Random(run.seed + 1234)
+    ps = {k: round(srnd.uniform(0.05, 1.0), 2) for k in range(1, 17)}
+    ct = CellTests(3 * len(ks) + 1, eps=EPS / (len(GRID) + 3))
+    random.seed(run.shard_seed * 7907 + 3)
+    for k in ks:
+        p = ps[k]
+        n = 3 * k + 2
+        kept_new = kept_last = acc = off = 0
+        for _ in range(runs_s):
+            st = GeometricReservoirStorage(size=k, constant_probability=p)
+            for i in range(n):
+                st.update({"t": i})
+                if i >= k:
+                    off += 1
+                    acc += i in [d["t"] for d in st.get_data()[0]]
+            have = {d["t"] for d in st.get_data()[0]}
+            kept_new += k in have
+            kept_last += (n - 1) in have
+        run.ok(runs_s, kind="size-sweep")
+        for got, tot, law_p, label in ((kept_new, runs_s, law(k, p, n, k), f"retention of arrival #{k + 1}"),
+                                       (kept_last, runs_s, law(k, p, n, n - 1), "retention of the last arrival"),
+                                       (acc, off, p, "acceptance frequency")):
+            r = ct.test(got, tot, law_p, f"size-sweep k={k} p={p} n={n} {label}")
+            if r:
+                run.violation("inclusion-law" if "retention" in label else "acceptance-probability", r, {"size_sweep": True, "k": k, "p": p})
+        run.nontriv(("size-sweep", k, p))
+    run.count("cell-tests", ct.done)
+    run.notes["max_min_detectable_deviation"] = max(mdd, ct.max_mdd)
     # ---- deterministic clauses via the scripted generator (shard 0)
     if sh == 0:
         for k in (1, 2, 3):
